@@ -306,6 +306,10 @@ def run(ctx: Ctx):
     ok2 = ctx.proof_stage("Properties/C13_clustering.v")
     if not ok2:
         ctx.violation("theorems of Properties/C13_clustering.v no longer check", {"broken": "Properties/C13_clustering.v"}, found_input=False)
+    # recount outputs (accuracy, descriptive, blocking analysis) under row permutation / id renaming
+    ok3 = ctx.proof_stage("Properties/C13_recounts.v")
+    if not ok3:
+        ctx.violation("theorems of Properties/C13_recounts.v no longer check", {"broken": "Properties/C13_recounts.v"}, found_input=False)
     # identifier-handling layer (Model/Idents.v, Properties/C13_idents.v): theorems, translator
     # obligations and correspondence for the string-level functions that look at column names
     from harness import c13_idents
